@@ -29,6 +29,7 @@ try:
             name = f"{pid}-{TAG}{m}"
             demo = open(os.path.join(d, "DEMO.txt")).read() if os.path.exists(os.path.join(d, "DEMO.txt")) else ""
             copies = re.findall(r"(\S+\.go)\s*->\s*(?:<(?:worktree|tree)>/)?(\S+)", demo)
+            copies = [(a, re.sub(r"^/tmp/\S*?/wt/C\d+/", "", b)) for a, b in copies]
             cmds = [c.strip() for c in re.findall(r"^\s*(go test [^\n]*)", demo, re.M)]
             res = {"name": name, "property": pid, "copies": copies, "cmds": cmds[:2]}
             sh("git checkout -q -- . && git clean -fdq")
